@@ -7,6 +7,7 @@ known in closed form and every instance carries a fingerprint.
 kinds
   "native"  independent Gaussian N(loc, scale) in the user's space (pure
             numpy, no repo code) -- may leak mass outside the prior box.
+  "jnative" as "native", but ``log_prob`` is written with jax.numpy so that it can be traced (BlackJAXSMC).
   "latent"  Gaussian in the latent space of the repo's *real* ``FlowTransform``
             handed over by ``Aspire.init_flow`` (bounded logit/probit + affine),
             so the repo's transform/Jacobian code is on the path.
@@ -148,6 +149,15 @@ class SimFlow(Flow):
 
     def log_prob(self, x, xp=None):
         self.n_log_prob_calls += 1
+        if self.kind == "jnative":
+            # jax-traceable evaluation (BlackJAXSMC calls the proposal under vmap / scan / jit): no numpy conversion
+            import jax.numpy as jnp
+
+            x = jnp.asarray(x)
+            if x.ndim == 1:
+                x = x[None, :]
+            u = (x - jnp.asarray(self.loc)) / jnp.asarray(self.scale)
+            return -0.5 * jnp.sum(u * u, axis=1) - float(np.sum(np.log(self.scale))) - 0.5 * self.dims * LOG_2PI
         x = np.asarray(to_np(x), dtype=np.float64)
         if x.ndim == 1:
             x = x[None, :]
